@@ -30,6 +30,7 @@ type c07Case struct {
 	Kind  string    `json:"value_kind"` // int | struct | str2str
 	Loads []c07Load `json:"loads"`
 	Fresh bool      `json:"never_loaded,omitempty"`
+	Real  bool      `json:"real_hash,omitempty"`       // the repository's real (seeded) hash instead of the harness-owned one
 	All   bool      `json:"probe_all_slots,omitempty"` // absent probes hashed to every slot (thorough) or to {0,1,last}
 	// formula part
 	Formula string `json:"formula,omitempty"`
@@ -43,6 +44,9 @@ type c07Struct struct {
 }
 
 func hashFor(slot, slots, variant int) uint64 {
+	if slots < 1 {
+		slots = 1
+	}
 	if slot < 0 {
 		slot = slots - 1
 	}
@@ -249,6 +253,9 @@ func keyOf(l *c07Load, i int) string {
 func c07Hist(c *mc.Ctx, k c07Case, _ func(slots int) []int) {
 	c.Eval(1)
 	slotAlpha := func(slots int) []int {
+		if slots < 1 {
+			return []int{0} // the table size is learnt from the code under test: never let a bogus size silence the probes
+		}
 		if slots <= 3 || k.All {
 			r := make([]int, slots)
 			for i := range r {
@@ -263,7 +270,11 @@ func c07Hist(c *mc.Ctx, k c07Case, _ func(slots int) []int) {
 	}
 	model := map[string]int{}
 	table := map[string]uint64{}
-	strmap.VerifSetHash(table, func(s string) uint64 { return 0 })
+	if k.Real {
+		strmap.VerifSetHash(nil, nil)
+	} else {
+		strmap.VerifSetHash(table, func(s string) uint64 { return 0 })
+	}
 	defer strmap.VerifSetHash(nil, nil)
 	step := -1
 	pi := mc.Try(func() {
@@ -288,7 +299,7 @@ func c07Hist(c *mc.Ctx, k c07Case, _ func(slots int) []int) {
 			for _, p := range c07Keys {
 				id, present := model[p]
 				var alts []int
-				if present {
+				if present || k.Real {
 					alts = []int{0} // the hash of a loaded key is fixed by its load
 				} else {
 					alts = slotAlpha(slots)
@@ -511,6 +522,7 @@ func c07Run(c *mc.Ctx) {
 						}
 						c.Distinct("hist", a, b, d, kd, fresh)
 						c07Hist(c, c07Case{Kind: kd, All: th, Loads: ls, Fresh: fresh}, alpha)
+						c07Hist(c, c07Case{Kind: kd, Real: true, Loads: ls, Fresh: fresh}, alpha)
 					}
 				}
 			}
